@@ -6,12 +6,15 @@ package main
 
 import (
 	"bytes"
+	"context"
+	"sort"
 	"strings"
 	"time"
 
 	spectypes "github.com/bloxapp/ssv-spec/types"
 	pubsub "github.com/libp2p/go-libp2p-pubsub"
 	pspb "github.com/libp2p/go-libp2p-pubsub/pb"
+	"go.uber.org/zap"
 
 	"github.com/bloxapp/ssv/message/validation"
 	"github.com/bloxapp/ssv/network/commons"
@@ -19,6 +22,9 @@ import (
 	"github.com/bloxapp/ssv/network/records"
 	"github.com/bloxapp/ssv/networkconfig"
 	"github.com/bloxapp/ssv/operator/keys"
+	"github.com/bloxapp/ssv/protocol/v2/ssv/runner"
+	ssvvalidator "github.com/bloxapp/ssv/protocol/v2/ssv/validator"
+	ssvtypes "github.com/bloxapp/ssv/protocol/v2/types"
 	"github.com/bloxapp/ssv/zz_verif/lib/hx"
 )
 
@@ -206,7 +212,11 @@ func main() {
 		case 4:
 			doOp(run, []string{"pubtopics", hx.Hex(key48(r))})
 		case 5:
-			doOp(run, []string{"subtopics", hx.Hex(genKey(r))})
+			if r.Chance(35) {
+				doOp(run, []string{"vstart", hx.Hex(key48(r)), hx.Hex(key48(r))})
+			} else {
+				doOp(run, []string{"subtopics", hx.Hex(genKey(r))})
+			}
 		case 6:
 			pk := key48(r)
 			var topic string
@@ -370,6 +380,40 @@ func doOp(run *hx.Run, w []string) {
 			return
 		}
 		run.Seen(hx.Sprintf("sub:%s", raw[0]))
+		run.Emit(line, joinHex(fullNames(raw)))
+	case "vstart":
+		// the REAL validator start-up path: Validator.Start subscribes, through the real p2pNetwork.Subscribe, to the
+		// topic of every duty runner's validator; the model's answer is subscribeTopics(validator key). The share key
+		// (second argument) is a different key of the same length and must play no role.
+		pk, spk := unhex(w[1]), unhex(w[2])
+		share := &ssvtypes.SSVShare{Share: spectypes.Share{OperatorID: 1, ValidatorPubKey: pk, SharePubKey: spk}}
+		runners := runner.DutyRunners{
+			spectypes.BNRoleVoluntaryExit: runner.NewVoluntaryExitRunner(spectypes.BeaconTestNetwork, &share.Share, nil, netPlain.Net(), nil),
+		}
+		ctx, cancel := context.WithCancel(context.Background())
+		v := ssvvalidator.NewValidator(ctx, cancel, ssvvalidator.Options{Network: netPlain.Net(), SSVShare: share, DutyRunners: runners})
+		netPlain.ResetSubscriptions()
+		_, err := v.Start(zap.NewNop())
+		raw := append([]string(nil), netPlain.Subscribed()...)
+		v.Stop()
+		if err != nil {
+			run.Emit(line, "err")
+			return
+		}
+		// cross-site oracle: what the validator listens on is what a broadcast for this validator and role is published on
+		if len(pk) == 48 {
+			mid := spectypes.NewMsgID(networkconfig.TestNetwork.Domain, pk, spectypes.BNRoleVoluntaryExit)
+			pub, _, perr := netPlain.BroadcastTopics(&spectypes.SSVMessage{MsgType: spectypes.SSVConsensusMsgType, MsgID: mid, Data: []byte{1}})
+			a, b := append([]string(nil), raw...), append([]string(nil), pub...)
+			sort.Strings(a)
+			sort.Strings(b)
+			if perr == nil && strings.Join(a, ",") != strings.Join(b, ",") {
+				run.Violate("C18/validator-start-subscribes-other-topic-than-broadcast", hx.Sprintf("validator %x share key %x: Start subscribed %v, Broadcast publishes on %v", pk, spk, a, b), line)
+			}
+		}
+		if len(raw) > 0 {
+			run.Seen(hx.Sprintf("vstart:%s", raw[0]))
+		}
 		run.Emit(line, joinHex(fullNames(raw)))
 	case "accept":
 		pk, topic := unhex(w[1]), string(unhex(w[2]))
